@@ -853,8 +853,23 @@ class Interp:
             try:
                 keys.append(const_eval(k))
             except NotConst:
-                return self.val(st, OpaqueV("dict"))
-        return self.bind(self.eval_list(e.values, st), lambda vs, s: self.val(s, s.new_dict(zip(keys, vs))))
+                keys = None
+                break
+        if keys is not None:
+            return self.bind(self.eval_list(e.values, st), lambda vs, s: self.val(s, s.new_dict(zip(keys, vs))))
+        if any(k is None for k in e.keys):
+            return self.val(st, OpaqueV("dict"))      # {**other, ...}
+
+        def with_all(vs, s):
+            ks = [self.const_key(v) for v in vs[:len(e.keys)]]
+            if any(isinstance(k, tuple) and k and k[0] == "?" for k in ks):
+                return self.val(s, OpaqueV("dict"))
+            return self.val(s, s.new_dict(zip(ks, vs[len(e.keys):])))
+        # keys that are not literals but evaluate to constants (enum members, module constants)
+        try:
+            return self.bind(self.eval_list(list(e.keys) + list(e.values), st), with_all)
+        except Unsupported:
+            return self.val(st, OpaqueV("dict"))
 
     def e_IfExp(self, e, st):
         def go(c, s):
@@ -1906,7 +1921,7 @@ class Interp:
             for it in st.items(args[0]):
                 i = self.as_int(it)
                 if i is None:
-                    self.unsupported(node, "sum of non-int")
+                    self.unsupported(node, f"sum of non-int ({it!r})")
                 tot = tot + i
             return self.val(st, IntV(tot))
         if short == "map" and len(args) >= 2 and all(isinstance(a, (ListV, TupleV)) for a in args[1:]):
